@@ -1748,7 +1748,11 @@ where
     } else {
         tl::liar_off();
     }
-    tl::fuse_arm(if case.fuse >= 0 { case.fuse as i64 } else { -1 });
+    if case.fuse >= 0 {
+        tl::fuse_arm2(case.fuse as i64, if case.prop == Prop::C04 && case.mode & 3 == 3 { 1 + (case.mode >> 2) % 12 } else { 0 });
+    } else {
+        tl::fuse_arm(-1);
+    }
     let mut univ = case.univ.max(1).min(if N > 17 { 96 } else { 24 });
     if univ > KD::MAX_UNIV {
         univ = KD::MAX_UNIV;
